@@ -122,7 +122,7 @@ DevSilentIn ==
 \* the host acknowledges a data packet (handshake crosses the PHY) or its ACK is lost / not sent
 HostAckIn ==
     /\ cur.ph = "in_resp" /\ cur.resp.kind = "data"
-    /\ sol' = "none" /\ tok' = "none"
+    /\ sol' = "none" /\ tok' = "none" /\ UNCHANGED bus
     /\ InWireFail(cur.resp) = "ok"
     /\ In(cur.addr, cur.resp, TRUE) /\ pk' = <<>>
     /\ act' = [e |-> "in", addr |-> cur.addr, host_ack |-> TRUE]
@@ -140,13 +140,22 @@ DoSetAddr == /\ cur.ph = "idle" /\ pk = <<>>
                                     /\ act' = [e |-> "ctl", addr |-> a, req |-> q]
              /\ UNCHANGED <<wvars, cur>> /\ Ghost(0, 0, <<>>)
 
-Next == \/ DoTx \/ DoRx \/ HostTokenOut \/ HostData \/ HostTokenIn \/ HostSof
+\* a bus reset between two transactions (active or suspended device, either resulting speed): address / configuration 0
+DoBusReset == /\ cur.ph = "idle" /\ pk = <<>>
+              /\ \E hs \in BOOLEAN : BusReset([hs_host |-> hs])
+              /\ act' = [e |-> "reset"]
+              /\ UNCHANGED cur /\ Ghost(0, 0, <<>>)
+
+Next == \/ DoBusReset \/ DoTx \/ DoRx \/ HostTokenOut \/ HostData \/ HostTokenIn \/ HostSof
         \/ DevAnswersOut \/ DevSilentOut \/ CommitOut
         \/ DevAnswersIn \/ DevSilentIn \/ HostAckIn \/ CommitInNoAck \/ DoSetAddr
 InitMC == SInit /\ cur = Idle /\ act = [e |-> "init"] /\ nSol = 0 /\ nDev = 0 /\ wireIn = <<>>
 Spec == InitMC /\ [][Next]_mcvars
 
-View == <<svars, cur, nSol - nDev, wireIn>>
+\* `bus` (negotiated speed, fresh-after-reset flag) influences no action of this model: hidden from the state identity
+View == <<vars, sol, tok, pk, cur, nSol - nDev, wireIn>>
+\* C08 through the stack: the address is 0 right after every bus reset (action property)
+ResetClears == [][(act' = [e |-> "reset"] /\ act' # act) => (addr' = 0 /\ cfg' = 0)]_mcvars
 Bounded == Len(hostWritten) <= MaxLog /\ Len(txOffered) <= MaxLog
 
 -----------------------------------------------------------------------------
